@@ -47,7 +47,10 @@ CHECKS = {
              "with a raw parse) is handed to that verified function as a Coq term and decided by the kernel VM: whole growth function when the orbit is within budget (quick 25000, "
              "thorough 400000 states), otherwise the longest prefix within budget + starts with 1 + positive + sum = documented order (n!, n!/2, 2^n n!, C(n,k), m^(2n-3), |SL(n,Z/m)|, "
              "2x2x2 constants). The graph a key denotes is built by the library constructor that datasets.py names (T5: constructor names re-read from the current datasets.py by AST).",
-        note="Trusted: Coq kernel + vm_compute; the documented-order table (trusted input, listed in the evidence; 310 rows have no documented order - Hungarian rings, globes, k-cycle "
+        note="The two datasets datasets.py computes by closed formulas (coxeter: Mahonian numbers, all_transpositions: Stirling numbers; 58 rows up to n = 30) are decided "
+             "COMPLETELY: every row is compared with the Gallina formula, proved for every n to be the growth function of that graph (C17_coxeter_growth_correct, "
+             "C17_all_transpositions_growth_correct: distance = inversions / n - cycles). "
+             "Trusted: Coq kernel + vm_compute; the documented-order table (trusted input, listed in the evidence; 310 rows have no documented order - Hungarian rings, globes, k-cycle "
              "families, larger puzzles - and get prefix + positivity only); library constructors as the denotation of keys (C15/C16 tie them to their documentation). PARTIAL for rows "
              "whose orbit exceeds the budget: only the prefix and the sum are decided.",
         technique="Coq proof (reference BFS = distance classes) + kernel evaluation of the verified function on every dataset row + translator-checked dataset definitions",
@@ -63,11 +66,11 @@ CHECKS = {
              "hungarian_rings.py, globe.py (Puzzles.v) compared exhaustively with the implementation over bounded parameter domains (cube n <= 5/7 all metrics, all ring tuples with "
              "sizes <= 8/12 incl. inadmissible ones, globe a,b <= 5/7) and a structural oracle written from the property text (order 4, exact layer support, per-axis commutation and "
              "disjointness, single ring cycles meeting exactly at the stated points and spacing, inverse-closedness).",
-        note="Generated puzzles: CUBE for EVERY n >= 2 (C16_cube_moves_structure_general: order 4, exact layer support, per-axis commutation/disjointness/coverage, through the closed "
-             "form C16_move_perm_nth of every layer turn as the geometric quarter turn of its slice); inverse-closedness of the four metric generator sets, rings and globe: kernel "
-             "computation up to stated bounds (cube metrics n <= 6, ring sizes <= 12, globe a,b <= 6: C16_cube_structure_upto_6, C16_rings_structure_upto_12, "
-             "C16_globe_structure_upto_6 with meaning lemmas) plus general theorems for the left ring rotation, _circular_shift and the globe row rotation; the RIGHT ring and the "
-             "globe f-generators for general parameters are NOT proved (PARTIAL there). GAP: texts with extra whitespace inside cycles/JSON are outside the printer's image (covered by correspondence only); "
+        note="Generated puzzles, ALL parameters (no bound): cube layer turns and all four metric generator sets for every n >= 2 (C16_cube_general, through the closed form "
+             "C16_move_perm_nth of every layer turn as the geometric quarter turn of its slice), Hungarian rings for all sizes and accepted index pairs (C16_rings_general: single "
+             "cycles, exact intersection points, spacing, inverses), globe for all a, b >= 1 (C16_globe_general), inverse-closedness of all these generator sets "
+             "(C16_generator_sets_inverse_closed); the bounded kernel computations (cube n <= 6, rings <= 12, globe <= 6) are kept as cross-checks. Table-driven puzzles "
+             "(pyraminx, megaminx, ...) are checked by the oracle only. GAP: texts with extra whitespace inside cycles/JSON are outside the printer's image (covered by correspondence only); "
              "non-ASCII digits and JSON outside 'lists of lists of non-negative integers' are not modelled (the model answers 'not modelled' and the check fails closed). "
              "Trusted: Coq kernel + vm_compute, Gap.v/Puzzles.v (validated), Python re/json/str semantics as modelled.",
         technique="Coq proof (GAP loader round trip, unbounded) + model/implementation correspondence on all shipped files and bounded parameter domains + structural oracle",
@@ -144,9 +147,10 @@ CHECKS = {
              "edges_list, vertex_name, get_edge_name) compared exactly AND proved (C08_hashes_to_indices_iff, C08_edges_list_iff, C08_numbering_consistent, C08_edge_name_spec, "
              "C08_vertex_name_injective) and composed with the BFS theorems: on a completed run the exported numbering and edge list describe exactly the Schreier graph on the "
              "orbit, every edge gets the name of a generator realising it, vertex names are distinct (C08_export_is_schreier_graph, C08_export_edge_names, "
-             "C08_export_vertex_names_distinct); dense/sparse matrices, networkx export, symmetry and labels checked against the true graph by the oracle.",
-        note="Trusted: as C01; numpy/scipy/networkx containers compared as sets of triples (dense/sparse adjacency are direct functions of the proved edge list, compared, not modelled); "
-             "matrix-graph vertex names (numpy repr) are not modelled.",
+             "C08_export_vertex_names_distinct); dense and sparse adjacency matrices, named undirected edges and the labelled networkx dictionary are modelled (ExportMatrices.v), "
+             "proved (entry at (i,j) iff some generator maps state i to state j, symmetric iff inverse-closed, labels = first generator: C08_export_adjacency_is_schreier, "
+             "C08_export_named_undirected, C08_export_nx_directed_labels) and compared with what numpy/scipy return; symmetry and labels are also checked against the true graph by the oracle.",
+        note="Trusted: as C01; networkx containers compared as sets of triples; matrix-graph vertex names (numpy repr) are not modelled.",
         technique="Coq proof (edge-block invariant through the BFS loop) + model/implementation correspondence",
         design="7 (C08)"),
     "C10": dict(
